@@ -11,7 +11,9 @@
 //	      of <pkg> both list input <hexpath>, b depends on a; ONE hasher: the file holds the first content (! = absent) when a is
 //	      hashed and the second when b is hashed (a's command rewrote / created / removed it); answers the two keys
 //	hash <algo> <hexbytes>
-//	nocachehash <algo> <hex,hex digests>
+//	nocachehash <algo> <hex,hex items>
+//	      hashing.HashStrings of the items; GetNoCacheOutputHash feeds it "<type>::<identifier>=<digest>" per output
+//	      (HashKey.nocache_output_hash over nocache_item; bare digests before the repair of C01-F3)
 package main
 
 import (
